@@ -154,7 +154,10 @@ def check(args, spec, fail=None):
             if mode != 'req':
                 raise Unspecified('explicit null for a defaulted argument')
             raise Fail(fail)
-        if type_of(v) != typ:
+        t = type_of(v)
+        if t == 'pred' or t.startswith('cmp:'):
+            t = 'function'
+        if t != typ:
             raise Fail(fail)
         out.append(v)
     return out
@@ -317,8 +320,38 @@ def f_arraySlice(args):
     return a[int(s):int(e)]
 
 
+def cmp_value(kind, x, y):
+    """The simulated compare functions hostCmp (descending), hostCmpLen (by class, strings by length) and
+    hostCmpNested (descending; the real one also runs an unrelated nested arraySort while comparing): pure, total,
+    shallow, answering -1.0 / 0.0 / 1.0."""
+    def rank(v):
+        if v is None:
+            return (0, 0)
+        if isinstance(v, bool):
+            return (1, int(v))
+        if is_num(v):
+            return (2, v)
+        if isinstance(v, str):
+            return (3, len(v) if kind == 'len' else v)
+        if isinstance(v, list):
+            return (4, len(v))
+        if isinstance(v, dict):
+            return (5, len(v))
+        return (6, 0)
+    a, b = rank(x), rank(y)
+    if kind == 'len':
+        a, b = (a[0], a[1] if a[0] == 3 else 0), (b[0], b[1] if b[0] == 3 else 0)
+    c = -1.0 if a < b else (0.0 if a == b else 1.0)
+    return -c if kind in ('desc', 'nested') and c else c
+
+
 def f_arraySort(args):
     a, fn = check(args, [(A, 'req'), ('function', 'optnull')])
+    if isinstance(fn, Opaque) and fn.kind.startswith('cmp:'):
+        import functools
+        kind = fn.kind[4:]
+        a.sort(key=functools.cmp_to_key(lambda x, y: cmp_value(kind, x, y)))
+        return a
     if fn is not None:
         raise Unspecified('comparator')
     import functools
@@ -502,7 +535,7 @@ SIGNATURES = {
     'arrayCopy': [A], 'arrayDelete': [A, 'ix'], 'arrayExtend': [A, A], 'arrayGet': [A, 'ix'],
     'arrayIndexOf': [A, 'any', '?ix'], 'arrayJoin': [A, S], 'arrayLastIndexOf': [A, 'any', '?ix'], 'arrayLength': [A],
     'arrayNew': ['*any'], 'arrayNewSize': ['?small', '?any'], 'arrayPop': [A], 'arrayPush': [A, '*any'],
-    'arraySet': [A, 'ix', 'any'], 'arrayShift': [A], 'arraySlice': [A, '?ix', '?ix'], 'arraySort': [A],
+    'arraySet': [A, 'ix', 'any'], 'arrayShift': [A], 'arraySlice': [A, '?ix', '?ix'], 'arraySort': [A, '?cmp'],
     'objectAssign': [O, O], 'objectCopy': [O], 'objectDelete': [O, 'key'], 'objectGet': [O, 'key', '?any'],
     'objectHas': [O, 'key'], 'objectKeys': [O], 'objectNew': ['*kv'], 'objectSet': [O, 'key', 'any'],
     'stringCharCodeAt': [S, 'ix'], 'stringEndsWith': [S, 'sub'], 'stringFromCharCode': ['*code'],
